@@ -40,7 +40,21 @@ type Run struct {
 func (f *Run) Call(s *slip.Scope, args slip.List, depth int) (result slip.Object) {
 	slip.CheckArgCount(s, depth, f, args, 1, 1)
 	if args[0] != nil {
-		go func() { _ = args[0].Eval(s, depth) }()
+		go func() {
+			// A condition that is not handled in the form ends the thread,
+			// not the process. It is reported as a warning.
+			defer func() {
+				switch tr := recover().(type) {
+				case nil:
+				case slip.Instance:
+					msg, _ := tr.SlotValue(slip.Symbol("message"))
+					slip.Warn("run thread terminated: %s %s", tr, msg)
+				default:
+					slip.Warn("run thread terminated: %v", tr)
+				}
+			}()
+			_ = args[0].Eval(s, depth)
+		}()
 	}
 	return slip.Novalue
 }
